@@ -158,8 +158,22 @@ def correspondence(ctx, model_ok=True):
     nfiles = 4 if ctx.quick else 40
     cases = []
     fulls = {}
-    for i in range(nfiles):
-        if i % 2 == 1:
+    for i in range(nfiles + 2):
+        if i >= nfiles:
+            # many events with tiny multiplicities: multi-digit event labels, so that a cut inside the label of an
+            # event header leaves a shorter decimal (the number of events read from the last line is then wrong)
+            if i == nfiles:
+                d = G.gen_doc(ctx.rng, fmt="Oscar2013", max_events=1, max_mult=1)
+                d["events"] = [{"rows": ([d["events"][0]["rows"][0]] if d["events"][0]["rows"] and j % 3 == 0 else []),
+                                "b": "0.000", "yn": "no"} for j in range(12 if ctx.quick else 23)]
+                base = {"kind": "oscar", "doc": d}
+                text = G.render(d)
+            else:
+                d = J.gen_doc(ctx.rng, max_events=1, max_mult=1)
+                d["events"] = [dict(d["events"][0], rows=(d["events"][0]["rows"][:1] if j % 4 == 0 else [])) for j in range(12)]
+                base = {"kind": "jet", "doc": d}
+                text = J.render(d)
+        elif i % 2 == 1:
             d = J.gen_doc(ctx.rng, max_events=3, max_mult=2)
             base = {"kind": "jet", "doc": d}
             text = J.render(d)
